@@ -4,6 +4,7 @@ import (
 	stdErrors "errors"
 	"fmt"
 	"math/rand"
+	"regexp"
 	"runtime"
 	"sort"
 	"strings"
@@ -38,7 +39,15 @@ import (
 // identical.
 //
 // Input: 2-4 added types under names whose alphabetical order, AddType order
-// and order of use in the root are independent; each type is an object / array
+// and order of use in the root are independent.  The FILE NAME every schema
+// object (the root, each type object) is created with is an input of its own (it
+// is what an error names as its file, and what the library may order things by):
+// it is drawn independently of the type names - a permutation of a pool of names
+// (orders that disagree with the order of the type names), independent draws
+// (equal names occur, also equal to the root's), one name for all objects (the
+// empty name too), or the type's own name (the file order is the name order); the
+// pool has the empty name, names that sort between / before / after the others,
+// names that look like type names.  Each type is an object / array
 // / bare value made of SITES; the root uses the types (plain, inside an array,
 // inside an or-shortcut, or not at all) and may have sites of its own.  A site
 // is fine, or wrong at the level of the named type (missing type, value against
@@ -50,18 +59,32 @@ import (
 
 type meSite struct {
 	value, annot string
-	cat          int // 0 fine, 1 wrong in a named type, 2 wrong in an unnamed type, 3 does not load
+	cat          int  // 0 fine, 1 wrong in a named type, 2 wrong in an unnamed type, 3 does not load
+	unnamed      bool // the loader makes an unnamed type for the site (wrong or fine)
 }
 
-type meType struct{ name, text string }
+type meType struct {
+	name, file, text string
+	wrongNamed       bool // has a site that is wrong at the level of the named type
+	unnamed          bool // has a site the loader makes an unnamed type for
+}
+
+// meFileNames: the pool the file names are drawn from.
+var meFileNames = []string{"", "#f", "@A", "@zed", "a", "b", "b.jst", "m", "root", "t1.jst", "t2.jst", "t3.jst", "z"}
+
+var meFileModes = []string{"permutation_of_the_pool", "independent_draws", "one_name_for_all", "own_type_name"}
 
 type meCase struct {
-	idx      int
-	rootText string
-	types    []meType // in AddType order
-	extra    OpCode   // OpCheck = none
-	doc      string
-	nbad     int
+	idx         int
+	rootFile    string
+	rootText    string
+	fileMode    int      // index into meFileModes
+	heavy       bool     // site profile: wrong sites of NAMED types are the most frequent ones
+	types       []meType // in AddType order
+	rootUnnamed bool     // the root text has a site the loader makes an unnamed type for
+	extra       OpCode   // OpCheck = none
+	doc         string
+	nbad        int
 	unnamedFiles,
 	namedFiles int // number of files (root / types) with a wrong site of that category
 	rootBad bool
@@ -69,9 +92,9 @@ type meCase struct {
 
 func (c *meCase) Text(withExtra bool) string {
 	var sb strings.Builder
-	fmt.Fprintf(&sb, "root := jschema.New(\"root\", %q); ", c.rootText)
+	fmt.Fprintf(&sb, "root := jschema.New(%q, %q); ", c.rootFile, c.rootText)
 	for i, t := range c.types {
-		fmt.Fprintf(&sb, "t%d := jschema.New(%q, %q); root.AddType(%q, t%d); ", i, t.name, t.text, t.name, i)
+		fmt.Fprintf(&sb, "t%d := jschema.New(%q, %q); root.AddType(%q, t%d); ", i, t.file, t.text, t.name, i)
 	}
 	sb.WriteString("root.Check()")
 	if withExtra {
@@ -85,11 +108,27 @@ func (c *meCase) Text(withExtra bool) string {
 	return sb.String()
 }
 
-func meSitePick(r *rand.Rand, later []string) meSite {
+// heavy: the other site profile (fine 18, wrong in a named type 40, wrong in an
+// unnamed type 28 of 100 instead of 23 / 20 / 43): several offending NAMED types
+// at once are then as frequent as several offending unnamed ones.
+func meSitePick(r *rand.Rand, later []string, heavy bool) (s meSite) {
+	defer func() {
+		s.unnamed = s.cat == 2 || strings.Contains(s.value, " | ") || strings.Contains(s.annot, "or:")
+	}()
 	m := func() string { return fmt.Sprintf("@m%d", 1+r.Intn(4)) }
 	x := r.Intn(100)
 	if len(later) > 0 && x < 12 {
 		return meSite{value: later[r.Intn(len(later))]}
+	}
+	if heavy && x >= 12 && x < 98 {
+		switch {
+		case x < 30:
+			x = 12
+		case x < 70:
+			x = 35
+		default:
+			x = 55
+		}
 	}
 	switch {
 	case x < 35:
@@ -121,7 +160,7 @@ func meSitePick(r *rand.Rand, later []string) meSite {
 	}
 	noload := []meSite{{value: `1`, annot: `{or: [{min: 1, max: 0}, {type: "string"}]}`}, {value: `1`, annot: `{min: 1, max: 0}`},
 		{value: `1`, annot: `{or: [{type: "mixed"}, {type: "string"}]}`}, {value: `[1, 2`}}
-	s := noload[r.Intn(len(noload))]
+	s = noload[r.Intn(len(noload))]
 	s.cat = 3
 	return s
 }
@@ -169,7 +208,8 @@ func meGenerate(i int) *meCase {
 	r.Shuffle(len(names), func(a, b int) { names[a], names[b] = names[b], names[a] })
 	n := 2 + r.Intn(3)
 	names = names[:n]
-	type file struct{ unnamed, named bool }
+	c.heavy = r.Intn(2) == 0
+	type file struct{ unnamed, named, anyUnnamed bool }
 	count := func(sites []meSite) (f file) {
 		for _, s := range sites {
 			if s.cat != 0 {
@@ -180,6 +220,9 @@ func meGenerate(i int) *meCase {
 			}
 			if s.cat == 1 {
 				f.named = true
+			}
+			if s.unnamed {
+				f.anyUnnamed = true
 			}
 		}
 		return f
@@ -202,11 +245,12 @@ func meGenerate(i int) *meCase {
 		sites := make([]meSite, ns)
 		keys := make([]string, ns)
 		for j := range sites {
-			sites[j] = meSitePick(r, names[k+1:])
+			sites[j] = meSitePick(r, names[k+1:], c.heavy)
 			keys[j] = fmt.Sprintf("k%d", j)
 		}
-		tally(count(sites))
-		types = append(types, meType{name, meRender(r, sites, keys, shape)})
+		f := count(sites)
+		tally(f)
+		types = append(types, meType{name: name, text: meRender(r, sites, keys, shape), wrongNamed: f.named, unnamed: f.anyUnnamed})
 	}
 	// the root: uses of the types + own sites
 	var rs []meSite
@@ -219,6 +263,7 @@ func meGenerate(i int) *meCase {
 			rs = append(rs, meSite{value: "[" + name + "]"})
 		case x < 9:
 			rs = append(rs, meSite{value: name + " | " + names[(k+1)%len(names)]})
+			c.rootUnnamed = true
 		default: // not used by the root
 			continue
 		}
@@ -227,7 +272,7 @@ func meGenerate(i int) *meCase {
 	nOwn := []int{0, 0, 0, 1, 1, 2}[r.Intn(6)]
 	var own []meSite
 	for j := 0; j < nOwn; j++ {
-		s := meSitePick(r, nil)
+		s := meSitePick(r, nil, c.heavy)
 		own = append(own, s)
 		rs = append(rs, s)
 		keys = append(keys, fmt.Sprintf("own%d", j))
@@ -235,6 +280,7 @@ func meGenerate(i int) *meCase {
 	f := count(own)
 	tally(f)
 	c.rootBad = f.unnamed || f.named
+	c.rootUnnamed = c.rootUnnamed || f.anyUnnamed
 	if len(rs) == 0 {
 		rs, keys = []meSite{{value: `1`}}, []string{"n"}
 	}
@@ -242,16 +288,152 @@ func meGenerate(i int) *meCase {
 	c.rootText = meRender(r, rs, keys, 0)
 	// helper types the sites refer to (now and then one is absent: one more missing type)
 	if r.Intn(6) != 0 {
-		types = append(types, meType{"@num", `1 // {min: 0}`})
+		types = append(types, meType{name: "@num", text: `1 // {min: 0}`})
 	}
 	if r.Intn(6) != 0 {
-		types = append(types, meType{"@str", `"s"`})
+		types = append(types, meType{name: "@str", text: `"s"`})
 	}
 	r.Shuffle(len(types), func(a, b int) { types[a], types[b] = types[b], types[a] })
+	// the file names: an input of their own (PRNG of its own, so that the texts of a
+	// case number do not depend on how the names are drawn)
+	rf := vh.NewRand(12500000 + int64(i))
+	c.fileMode = []int{0, 0, 0, 1, 1, 1, 2, 3}[rf.Intn(8)]
+	pool := append([]string(nil), meFileNames...)
+	rf.Shuffle(len(pool), func(a, b int) { pool[a], pool[b] = pool[b], pool[a] })
+	one := pool[0]
+	if rf.Intn(3) == 0 {
+		one = ""
+	}
+	fileOf := func(k int, own string) string {
+		switch c.fileMode {
+		case 0:
+			return pool[k]
+		case 1:
+			return meFileNames[rf.Intn(len(meFileNames))]
+		case 2:
+			return one
+		}
+		return own
+	}
+	c.rootFile = fileOf(len(types), "root")
+	for k := range types {
+		types[k].file = fileOf(k, types[k].name)
+	}
 	c.types = types
 	c.extra = []OpCode{OpCheck, OpCheck, OpExample, OpAST, OpValidate, OpUsed}[r.Intn(6)]
 	c.doc = `{"own0": 1}`
 	return c
+}
+
+// fileStats: how the file names of the case relate to the type names and to what
+// the files contain.
+func (c *meCase) fileStats() []string {
+	out := []string{"me_file_names_" + meFileModes[c.fileMode]}
+	if c.heavy {
+		out = append(out, "me_site_profile_named_heavy")
+	}
+	files := map[string]bool{c.rootFile: true}
+	agree, disagree, tie := 0, 0, 0
+	nOff := 0
+	for i, a := range c.types {
+		files[a.file] = true
+		if a.wrongNamed {
+			nOff++
+		}
+		for _, b := range c.types[i+1:] {
+			switch {
+			case a.file == b.file:
+				tie++
+			case (a.name < b.name) == (a.file < b.file):
+				agree++
+			default:
+				disagree++
+			}
+		}
+	}
+	out = append(out, fmt.Sprintf("me_distinct_file_names_%d", len(files)))
+	if c.rootFile == "" {
+		out = append(out, "me_root_file_name_empty")
+	}
+	switch {
+	case disagree > 0 && tie > 0:
+		out = append(out, "me_file_order_vs_type_name_order_disagrees_and_equal_file_names")
+	case disagree > 0:
+		out = append(out, "me_file_order_vs_type_name_order_disagrees")
+	case tie > 0:
+		out = append(out, "me_file_order_vs_type_name_order_agrees_up_to_equal_file_names")
+	default:
+		out = append(out, "me_file_order_vs_type_name_order_agrees")
+	}
+	out = append(out, fmt.Sprintf("me_offending_named_types_%d", imin(nOff, 4)))
+	// >= 2 offending named types together with an unnamed type made from ANOTHER
+	// file (a third type's or the root's) under a file name of its own
+	if nOff >= 2 {
+		out = append(out, "me_2+_offending_named_types")
+		other, between := false, false
+		var offFiles []string
+		for _, a := range c.types {
+			if a.wrongNamed {
+				offFiles = append(offFiles, a.file)
+			}
+		}
+		sort.Strings(offFiles)
+		chk := func(f string) {
+			own := false
+			for _, o := range offFiles {
+				if o == f {
+					own = true
+				}
+			}
+			if !own {
+				other = true
+				if f > offFiles[0] && f < offFiles[len(offFiles)-1] {
+					between = true
+				}
+			}
+		}
+		if c.rootUnnamed {
+			chk(c.rootFile)
+		}
+		for _, a := range c.types {
+			if a.unnamed {
+				chk(a.file)
+			}
+		}
+		if other {
+			out = append(out, "me_2+_offending_named_types_and_unnamed_type_of_a_file_with_another_name")
+		}
+		if between {
+			out = append(out, "me_2+_offending_named_types_and_unnamed_type_of_a_file_whose_name_sorts_between_theirs")
+		}
+	}
+	return out
+}
+
+var meShortcutRe = regexp.MustCompile(`@\w+( \| @\w+)+`)
+
+// equalNameShortcutTie: two DIFFERENT schema objects of the case (root / type
+// objects) were created with EQUAL file names and have an or-shortcut (`@a | @b`:
+// an unnamed type) at the same offset of their texts.  (Statistic and note only:
+// (file name, offset) is all that tells such unnamed types apart besides their
+// generated names.)
+func (c *meCase) equalNameShortcutTie() bool {
+	type obj struct{ file, text string }
+	objs := []obj{{c.rootFile, c.rootText}}
+	for _, t := range c.types {
+		objs = append(objs, obj{t.file, t.text})
+	}
+	at := map[string]int{} // file name + offset -> object
+	for i, o := range objs {
+		for _, loc := range meShortcutRe.FindAllStringIndex(o.text, -1) {
+			k := fmt.Sprintf("%q@%d", o.file, loc[0])
+			if j, ok := at[k]; ok && j != i {
+				return true
+			}
+			at[k] = i
+		}
+	}
+	return false
 }
 
 // churner: heap traffic between the steps of a construction.
@@ -316,10 +498,10 @@ func meConstruct(c *meCase, ch *churner) (res string) {
 	}()
 	var sb strings.Builder
 	ch.step()
-	s := jschema.New("root", c.rootText)
+	s := jschema.New(c.rootFile, c.rootText)
 	for _, t := range c.types {
 		ch.step()
-		ts := jschema.New(t.name, t.text)
+		ts := jschema.New(t.file, t.text)
 		ch.step()
 		sb.WriteString(meErr(s.AddType(t.name, ts)))
 		sb.WriteString(" ; ")
@@ -442,6 +624,13 @@ func reportMultiErr(rep *vh.Report, addDiff func(vh.Diff), rs []meResult, reps i
 			rep.Stat("me_wrong_unnamed_and_wrong_named_sites")
 		}
 		rep.Stat("me_extra_call_" + opNames[c.extra])
+		for _, st := range c.fileStats() {
+			rep.Stat(st)
+		}
+		tie := c.equalNameShortcutTie()
+		if tie {
+			rep.Stat("me_objects_of_equal_file_names_with_or_shortcuts_at_equal_offsets")
+		}
 		if i := strings.Index(r.base, "Check: "); i >= 0 {
 			f := strings.Fields(r.base[i+7:])
 			if len(f) > 0 {
@@ -467,7 +656,8 @@ func reportMultiErr(rep *vh.Report, addDiff func(vh.Diff), rs []meResult, reps i
 				Input: fmt.Sprintf("multi-error case #%d (meGenerate(%d)): %s — the same calls on fresh objects %d times, allocations of varying sizes / runtime.GC() (%d) between the calls",
 					c.idx, c.idx, c.Text(true), reps, r.gcs),
 				Impl:  fmt.Sprintf("first differing construction #%d; %s", r.firstAlt, strings.Join(alts, " || ")),
-				Model: fmt.Sprintf("every construction gives what construction #0 gave (%d of %d did): %s", r.distinct[r.base], reps, r.base)})
+				Model: fmt.Sprintf("every construction gives what construction #0 gave (%d of %d did): %s", r.distinct[r.base], reps, r.base),
+				Note:  map[bool]string{true: "objects created with equal file names have or-shortcuts at equal offsets of their texts", false: ""}[tie]})
 		}
 	}
 }
